@@ -526,13 +526,26 @@ func genTCP(t *rapid.T) *TCPCase {
 			break
 		}
 		st := TCPStep{Op: rapid.SampledFrom(ops).Draw(t, "op")}
+		// the request / half-close / response shape: after a half-close the other side answers
+		answer := -1
+		if k := len(c.Steps); k > 0 && rapid.IntRange(0, 2).Draw(t, "answer") > 0 {
+			if c.Steps[k-1].Op == "hcA" && canB {
+				st.Op, answer = "sendB", 1
+			} else if c.Steps[k-1].Op == "hcB" && canA {
+				st.Op, answer = "sendA", 0
+			}
+		}
 		switch st.Op {
-		case "sendA":
+		case "sendA", "sendB":
+			x := 0
+			if st.Op == "sendB" {
+				x = 1
+			}
 			st.N = genSize(t, "n")
-			sent[0] += st.N
-		case "sendB":
-			st.N = genSize(t, "n")
-			sent[1] += st.N
+			if answer >= 0 && st.N < 1024 {
+				st.N += 1024
+			}
+			sent[x] += st.N
 		case "sendBoth":
 			st.N, st.M = genSize(t, "n"), genSize(t, "m")
 			sent[0] += st.N
